@@ -43,7 +43,9 @@ func rowsEqualMaybeOpen(a, b json.RawMessage, open bool) bool {
 func failed(op *casefmt.OpObs) bool { return op.NewErr != "" || op.ExecErr != "" }
 
 func c19Ops(q, follow string, repeat bool) []casefmt.Op {
-	ops := []casefmt.Op{{Doc: 0, Vars: -1, Query: q}, {Doc: 0, Vars: -1, Query: follow}}
+	// the failing query's Exec is called a second time on the same Query: the next evaluation behaves as if
+	// the failed one had never run
+	ops := []casefmt.Op{{Doc: 0, Vars: -1, Query: q, ExecTwice: true}, {Doc: 0, Vars: -1, Query: follow}}
 	if repeat {
 		ops = append(ops, casefmt.Op{Doc: 0, Vars: -1, Query: q})
 	}
@@ -116,10 +118,15 @@ func evalC19Stub(b *Bundle, r *Runner, exp *c19Expect) []*Violation {
 		if n == 0 {
 			r.Stats.probe("site_never_invoked")
 		}
-		for k := 1; k <= n; k++ {
+		for kk := 0; kk < 3*n; kk++ {
+			// every invocation index x {returned error, panic(error), panic(string)}: a panicking function is a
+			// failing step as well; if its panic escapes the API that is C10's finding, but it may never turn
+			// into a successful-looking result
+			k := kk/3 + 1
+			kind := []string{"error", "panic", "panic_str"}[kk%3]
 			total++
 			fc := base
-			fc.Stubs.Faults = []casefmt.Fault{{ID: site, K: k, Kind: "error"}}
+			fc.Stubs.Faults = []casefmt.Fault{{ID: site, K: k, Kind: kind}}
 			o := r.Run(&fc, false)
 			if v := followUpHang(b, o, fmt.Sprintf("fault at invocation %d of site %d in %q", k, site, exp.FQ.Query)); v != nil {
 				vs = append(vs, v)
@@ -144,10 +151,19 @@ func evalC19Stub(b *Bundle, r *Runner, exp *c19Expect) []*Violation {
 				continue
 			}
 			r.Stats.probe("fault_in_" + positionOfSite(exp, site))
-			what := fmt.Sprintf("fault at invocation %d of site %d (%s) in %q", k, site, positionOfSite(exp, site), exp.FQ.Query)
+			r.Stats.probe("fault_kind_" + kind)
+			what := fmt.Sprintf("%s at invocation %d of site %d (%s) in %q", kind, k, site, positionOfSite(exp, site), exp.FQ.Query)
 			if v := judgeFailed(b, o, &o.Ops[0], what); v != nil {
 				vs = append(vs, v)
 				continue
+			}
+			// a second Exec of the very Query that failed: nothing of the failed evaluation may have stuck to it
+			if e2 := o.Ops[0].Exec2; e2 != "" && o.Ops[0].Panic == "" {
+				if e2 != "ok" || !rowsEqualMaybeOpen(o.Ops[0].Rows2, o0.Ops[0].Rows, exp.FQ.OrderOpen) {
+					vs = append(vs, mkViolation(b, "SECOND_EXEC_DIFFERS", posOf(b), fmt.Sprintf("%s\n Exec called again on the same Query (no fault this time): %s %s\n fault-free result: %s", what, e2, compact(o.Ops[0].Rows2), compact(o0.Ops[0].Rows)), o))
+					continue
+				}
+				r.Stats.probe("second_exec_after_failure_compared")
 			}
 			// the library stays usable: follow-up and repeat behave as if the failed query had never run
 			if opOutcome(&o.Ops[1]) != "ok" || !rowsEqualMaybeOpen(o.Ops[1].Rows, o0.Ops[1].Rows, false) {
